@@ -345,6 +345,46 @@ def big_ldpc(rng, ks, finish=True):
     return execs
 
 
+def rs_recv_then_table(rng, count):
+    """Reed-Solomon sessions that first receive a few symbols one by one (fewer than k) and then hand over the whole
+    reception table -- a superset of what was submitted, so that "the table replaces" and "the table is added" mean the
+    same -- possibly followed by more arrivals (what the shipped example client does when its first attempt failed).
+    The number of source symbols before and in the table is drawn so that their sum often equals k."""
+    execs = []
+    for _ in range(count):
+        (c, m) = rng.choice([(1, 0), (2, 4), (2, 8)])
+        n = rng.randint(3, 15 if m == 4 else 24)
+        k = rng.randint(2, n - 1)
+        p = P(c, k, n - k, m=m)
+        s_src = rng.randint(1, k - 1)
+        first = rng.sample(range(k), s_src)
+        if rng.random() < 0.3 and n - k >= 1 and len(first) + 1 < k:
+            first.append(rng.randrange(k, n))
+        rng.shuffle(first)
+        t_src = rng.choice([k - s_src, k - s_src, rng.randint(s_src, k)]) if k - s_src >= s_src else rng.randint(s_src, k)
+        extra_src = rng.sample([e for e in range(k) if e not in first], max(0, t_src - s_src))
+        table = set(first) | set(extra_src)
+        want = rng.choice([k, k, k - 1, k + 1, len(table)])
+        reps = [e for e in range(k, n) if e not in table]
+        rng.shuffle(reps)
+        while len(table) < want and reps:
+            table.add(reps.pop())
+        rest = [e for e in range(n) if e not in table]
+        rng.shuffle(rest)
+        ex = ["create 0 %d dec" % c, p.params_line(0)]
+        cb = rng.choice([None, None, "buf", "null"])
+        if cb:
+            ex.append("cb 0 %s" % cb)
+        for e in first:
+            ex.append("recv 0 %d" % e)
+        ex += ["complete 0", "setavail 0 %s" % ",".join(str(e) for e in sorted(table)), "complete 0", "gettab 0"]
+        for e in rest[:rng.choice([0, 0, 1, 2])]:
+            ex += ["recv 0 %d" % e, "complete 0"]
+        ex += ["finish 0", "complete 0", "gettab 0", "release 0"]
+        execs.append(ex)
+    return execs
+
+
 def random_rs(rng, count, nmax, cbs=(None,), apis=("recv", "setavail"), payloads=("id", "rnd")):
     execs = []
     for _ in range(count):
@@ -598,6 +638,7 @@ def workload(pid, tier, rng):
         execs += rs_every_code(rng, 24 if q else 48)
         execs += rs_exhaustive(rs_mid, rng, apis=("recv", "setavail"), orders=1, probe="end", maxsub=150 if q else 1500)
         execs += random_rs(rng, 300 if q else 20000, 255)
+        execs += rs_recv_then_table(rng, 300 if q else 5000)
         # the MDS argument rests on the generator being V_rest * V_top^-1: one (T: four) repair row(s) of EVERY k,
         # both GF(2^8) implementations, validated by ApiTrace!DoBuild (g * V_top = V[esi])
         for k in range(1, 255):
@@ -640,6 +681,7 @@ def workload(pid, tier, rng):
         execs += random_ldpc(rng, 100 if q else 8000, 40 if q else 64, cbs=cbs_all)
         execs += random_rs(rng, 100 if q else 8000, 40 if q else 255, cbs=cbs_all)
         execs += big_symbols(rng, 24 if q else 400, cbs=cbs_all)
+        execs += rs_recv_then_table(rng, 150 if q else 2000)
     elif pid == "C11":
         execs += ldpc_exhaustive(ld_small[:4 if q else 8], rng, apis=("recv", "setavail"), finish=(True,),
                                  cbs=CB11, orders=1, probe="end")
